@@ -2,6 +2,8 @@ package main
 
 import (
 	"fmt"
+	"sort"
+	"verif/internal/oracle"
 
 	v1 "k8s.io/api/core/v1"
 
@@ -44,8 +46,13 @@ type gridOpts struct {
 	Deleting   bool
 	Paused     bool
 	Limit      int32
-	SelExpr    bool  // selector written with matchExpressions
-	Far        []int // extra Ready pods at these multi-digit ordinals in every population
+	SelExpr    bool // selector written with matchExpressions
+	// RawSlots: instead of well-formed slot sets, these raw annotation values (valid JSON of the wrong shape, numbers
+	// that do not fit: the whole annotation is then unusable and denotes no slot)
+	RawSlots []string
+	// StatusAhead: status left by another writer (observedGeneration ahead of generation, counters zero)
+	StatusAhead bool
+	Far         []int // extra Ready pods at these multi-digit ordinals in every population
 }
 
 func p32(i int32) *int32 { return &i }
@@ -82,6 +89,11 @@ func alphabet(h history, rich bool) []gen.Cell {
 		// a healthy pod created by an earlier incarnation of the set (other governing service)
 		add(gen.Cell{Present: true, Phase: v1.PodRunning, Ready: true, Rev: len(h.Revs) - 1, OldSvc: true})
 		add(gen.Cell{Present: true, Phase: v1.PodFailed, Term: true, Rev: len(h.Revs) - 1})
+		// Ready condition without the Running phase: not Running and Ready
+		add(gen.Cell{Present: true, Phase: v1.PodPending, Ready: true, Rev: len(h.Revs) - 1})
+		if rich {
+			add(gen.Cell{Present: true, Phase: v1.PodUnknown, Ready: true, Rev: len(h.Revs) - 1})
+		}
 	}
 	// a pod whose label names no stored revision
 	add(gen.Cell{Present: true, Phase: v1.PodRunning, Ready: true, Rev: -1})
@@ -128,15 +140,31 @@ func snapshotGrid(o gridOpts, emit func(explore.Case) bool) {
 		universe[i] = int32(i)
 	}
 	slotSets := gen.Subsets(universe, o.MaxSlots)
+	var raws []*string
+	for range slotSets {
+		raws = append(raws, nil)
+	}
+	if len(o.RawSlots) > 0 {
+		slotSets, raws = nil, nil
+		for i := range o.RawSlots {
+			var ref []int32
+			for x := range oracle.ParseSlots(map[string]string{"delete-slots": o.RawSlots[i]}) {
+				ref = append(ref, x)
+			}
+			sort.Slice(ref, func(a, b int) bool { return ref[a] < ref[b] })
+			slotSets = append(slotSets, ref)
+			raws = append(raws, &o.RawSlots[i])
+		}
+	}
 	for _, h := range o.Histories {
 		alpha := alphabet(h, o.Rich)
 		for r := o.MinR; r <= o.MaxR; r++ {
-			for _, slots := range slotSets {
+			for si, slots := range slotSets {
 				des := desiredOf(r, slots)
 				base := steady(o.N, des, h)
 				for _, pol := range o.Policies {
 					for _, strat := range o.Strategies {
-						sp := gen.Spec{Name: gen.SetName, Replicas: r, Slots: slots, Policy: pol, Strategy: strat, Limit: o.Limit, Template: h.Tmpl, Deleting: o.Deleting, Paused: o.Paused, SelExpr: o.SelExpr}
+						sp := gen.Spec{Name: gen.SetName, Replicas: r, Slots: slots, Policy: pol, Strategy: strat, Limit: o.Limit, Template: h.Tmpl, Deleting: o.Deleting, Paused: o.Paused, SelExpr: o.SelExpr, SlotsRaw: raws[si]}
 						stop := false
 						for d := o.DMin; d <= o.DMax || (o.DMax < 0 && d == o.DMin); d++ {
 							dd := d
@@ -147,7 +175,7 @@ func snapshotGrid(o gridOpts, emit func(explore.Case) bool) {
 								if stop {
 									return
 								}
-								sc := gen.Scenario{Spec: sp, Revs: h.Revs, Cur: h.Cur, Cells: cells, Far: o.Far}
+								sc := gen.Scenario{Spec: sp, Revs: h.Revs, Cur: h.Cur, Cells: cells, Far: o.Far, StatusAhead: o.StatusAhead}
 								if !emit(explore.Case{Label: sc.String(), Build: func(w *world.World) *world.State { return sc.Build(w) }}) {
 									stop = true
 								}
@@ -168,6 +196,6 @@ func fmtOpts(o gridOpts) string {
 	for _, h := range o.Histories {
 		hs = append(hs, h.Name)
 	}
-	return fmt.Sprintf("ordinals 0..%d, replicas %d..%d, every slot subset of the ordinals with <=%d members, policies %v, strategies %v, histories %v, pod populations differing from the steady state in %d..%d ordinals (max<0 = full product) over a %s cell alphabet (phase x ready x terminating x revision), deleting=%v paused=%v selectorAsExpressions=%v extraPodsAtOrdinals=%v",
-		o.N-1, o.MinR, o.MaxR, o.MaxSlots, o.Policies, o.Strategies, hs, o.DMin, o.DMax, map[bool]string{true: "rich", false: "basic"}[o.Rich], o.Deleting, o.Paused, o.SelExpr, o.Far)
+	return fmt.Sprintf("ordinals 0..%d, replicas %d..%d, every slot subset of the ordinals with <=%d members, policies %v, strategies %v, histories %v, pod populations differing from the steady state in %d..%d ordinals (max<0 = full product) over a %s cell alphabet (phase x ready x terminating x revision), deleting=%v paused=%v selectorAsExpressions=%v extraPodsAtOrdinals=%v rawAnnotationValues=%q",
+		o.N-1, o.MinR, o.MaxR, o.MaxSlots, o.Policies, o.Strategies, hs, o.DMin, o.DMax, map[bool]string{true: "rich", false: "basic"}[o.Rich], o.Deleting, o.Paused, o.SelExpr, o.Far, o.RawSlots)
 }
